@@ -271,4 +271,81 @@ theorem fact_form_tables :
     (∀ c ∈ ["InvalidRequest", "InvalidGrant", "UnsupportedGrantType", "InvalidDPopProof"], (alGet Facts.C05.oauthErrorCodes c).isSome) := by
   refine ⟨by decide, by decide, by decide, by decide, by decide, by decide, by decide, by decide, by decide, by decide, by decide⟩
 
+/-! ### Property theorems: sequences of requests at the real endpoints' level (all request contents, all histories, any
+    amount of time between requests, both back-end expiry conventions) -/
+
+/-- **An authorization code is dead after ANY attempt at the token endpoint** — honoured, wrong client_id, wrong or missing
+    code_verifier, missing client_id, unparsable DPoP header, unknown code: once `HandleTokenRequest` has dispatched a request
+    naming `code` to the authorization-code handler, no later request naming it is honoured, whatever requests (token
+    requests of any grant, authorization responses) are served in between and however much time passes. -/
+theorem code_dead_after_any_attempt (incl : Bool) (ttl : Kind → Nat) (pk : Pkce) (now : Nat) (st : Store)
+    (f : TokenForm) (code : String) (hf : f.code = some code) (hr : grantAction f.grantType = "handleAccessTokenRequest")
+    (later : List (Nat × Form)) (dt : Nat) (g : TokenForm) (hg : g.code = some code) :
+    (handleCode ⟨incl, (runForms incl ttl pk now (handleToken ⟨incl, now, ttl⟩ pk st f).2 later).2.2 + dt, ttl⟩ pk
+        (runForms incl ttl pk now (handleToken ⟨incl, now, ttl⟩ pk st f).2 later).2.1 g).1 ≠ .ok := by
+  have h1 : stGet incl (handleToken ⟨incl, now, ttl⟩ pk st f).2 now (codeKey code) = none := by
+    unfold handleToken
+    simp only [hr, if_true]
+    exact handleCode_kills ⟨incl, now, ttl⟩ pk st f code hf
+  have h2 := runForms_keeps_dead incl ttl pk (codeKey code) .code rfl later now _ h1
+  exact handleCode_not_ok_of_dead ⟨incl, _, ttl⟩ pk _ g code hg (stGet_none_later incl _ _ dt _ h2)
+
+/-- non-vacuity: a first attempt with the wrong client_id kills a live code; the honest request that follows is refused -/
+example :
+    let pk : Pkce := ⟨"S256", fun v => v == "v"⟩
+    let st : Store := [(codeKey "c1", ⟨"clientA", 60⟩)]
+    let wrong : TokenForm := { grantType := "authorization_code", code := some "c1", codeVerifier := some "v", clientId := some "clientB" }
+    let good : TokenForm := { wrong with clientId := some "clientA" }
+    (handleToken ⟨true, 0, todayTTL⟩ pk st good).1 = .ok ∧
+    (runForms true todayTTL pk 0 st [(0, .token wrong), (1, .token good)]).1 =
+      [.err "invalid_request" "client_id does not match: %s vs %s", .err "invalid_grant" "invalid authorization code"] := by
+  decide
+
+/-- **Burn them all**: whatever the response endpoint answers once it reached the nonce check, every nonce that ANY of its
+    presentations named (JWT claim, LD challenge, LD nonce fallback) is dead: no later authorization response naming it —
+    alone or among others — passes the nonce check. -/
+theorem vp_nonce_dead_after_any_response (incl : Bool) (ttl : Kind → Nat) (pk : Pkce) (now : Nat) (st : Store)
+    (ps : List Pres) (state : String) (n : String) (hn : n ∈ (collect ps).nonces)
+    (later : List (Nat × Form)) (dt : Nat) (ps2 : List Pres) (state2 : String) (hn2 : n ∈ (collect ps2).nonces) :
+    (validateNonce ⟨incl, (runForms incl ttl pk now (validateNonce ⟨incl, now, ttl⟩ st ps state).2 later).2.2 + dt, ttl⟩
+        (runForms incl ttl pk now (validateNonce ⟨incl, now, ttl⟩ st ps state).2 later).2.1 ps2 state2).1 ≠ .ok := by
+  have h1 := validateNonce_kills ⟨incl, now, ttl⟩ st ps state n hn
+  have h2 := runForms_keeps_dead incl ttl pk (vpKey n) .vpNonce rfl later now _ h1
+  exact validateNonce_not_ok_of_dead ⟨incl, _, ttl⟩ _ ps2 state2 n hn2 (stGet_none_later incl _ _ dt _ h2)
+
+/-- non-vacuity: a response whose presentations disagree burns both live nonces -/
+example :
+    let st : Store := [(vpKey "n1", ⟨"s", 60⟩), (vpKey "n2", ⟨"s", 60⟩)]
+    let p1 : Pres := { fmt := .ld, challenge := "n1" }
+    let p2 : Pres := { fmt := .jwt, jwtNonce := "n2" }
+    (collect [p1, p2]).nonces = ["n1", "n2"] ∧
+    (validateNonce ⟨true, 0, todayTTL⟩ st [p1] "s").1 = .ok ∧
+    (validateNonce ⟨true, 0, todayTTL⟩ st [p1, p2] "s").2 = [] := by
+  decide
+
+/-- a request the token endpoint does not dispatch to a handler (unknown, differently-cased or not-implemented grant type;
+    vp_token grant with a required parameter missing) leaves the session store untouched -/
+theorem refused_grant_touches_nothing (c : Sq) (pk : Pkce) (st : Store) (f : TokenForm)
+    (h1 : grantAction f.grantType ≠ "handleAccessTokenRequest")
+    (h2 : grantAction f.grantType ≠ "handleS2SAccessTokenRequest" ∨ f.assertion = none ∨ f.submission = false ∨ f.scope = false ∨ f.clientId = none) :
+    (handleToken c pk st f).2 = st ∧ (handleToken c pk st f).1 ≠ .ok := by
+  unfold handleToken
+  simp only [h1, if_false]
+  by_cases hs : grantAction f.grantType = "handleS2SAccessTokenRequest"
+  · simp only [hs, if_true]
+    cases ha : f.assertion with
+    | none => simp [errAt_ne_ok]
+    | some ns =>
+      rcases h2 with h | h | h | h | h
+      · exact absurd hs h
+      · rw [ha] at h; cases h
+      · simp [h, errAt_ne_ok]
+      · simp [h, errAt_ne_ok]
+      · simp [h, errAt_ne_ok]
+  · simp only [hs, if_false]
+    split <;> simp [errAt_ne_ok]
+
+example : grantAction "Authorization_Code" ≠ "handleAccessTokenRequest" ∧ grantAction "authorization_code" = "handleAccessTokenRequest" ∧
+    grantAction "vp_token-bearer" = "handleS2SAccessTokenRequest" ∧ grantAction "*" = "error:UnsupportedGrantType" := by decide
+
 end Nuts.C05.Props
